@@ -16,7 +16,7 @@ Lim(x) == x   \* -1 encodes "no limit" in the trace as in the spec
 
 TInit == /\ l = 1
          /\ ps = [p \in Peers |-> Disc]
-         /\ pend = {} /\ tx = <<>> /\ cpeer = <<>> /\ cdir = <<>> /\ caddrs = <<>>
+         /\ pend = {} /\ tx = <<>> /\ cpeer = <<>> /\ cdir = <<>> /\ caddrs = <<>> /\ otr = <<>> /\ ctr = <<>>
          /\ limIn = {} /\ limOut = {} /\ next = 0
          /\ known = [p \in Peers |-> {}]
          /\ MaxIn = NoLimit /\ MaxOut = NoLimit
@@ -26,7 +26,7 @@ TInit == /\ l = 1
 
 TReset == /\ Rec[l].e = "reset"
           /\ ps' = [p \in Peers |-> Disc]
-          /\ pend' = {} /\ tx' = <<>> /\ cpeer' = <<>> /\ cdir' = <<>> /\ caddrs' = <<>>
+          /\ pend' = {} /\ tx' = <<>> /\ cpeer' = <<>> /\ cdir' = <<>> /\ caddrs' = <<>> /\ otr' = <<>> /\ ctr' = <<>>
           /\ limIn' = {} /\ limOut' = {} /\ next' = 0
           /\ known' = [p \in Peers |-> {}]
           /\ MaxIn' = Rec[l].maxIn /\ MaxOut' = Rec[l].maxOut
@@ -46,13 +46,14 @@ ImplAct(s) ==
     [] s.a = "accept_ok" -> TAcceptOk(s.c)
     [] s.a = "accept_err" -> TAcceptErr(s.c)
     [] s.a = "opened" -> TOpened(s.c, s.addr)
-    [] s.a = "open_fail" -> TOpenFail(s.c)
-    [] s.a = "inbound" -> TInbound
+    [] s.a = "open_fail" -> TOpenFail(s.c, IF "tr" \in DOMAIN s THEN s.tr ELSE "t")
+    [] s.a = "inbound" -> TInbound(IF "tr" \in DOMAIN s THEN s.tr ELSE "t")
     [] s.a = "closed" -> ConnClosed(s.c)
     [] s.a = "in_drop" -> TInDrop(s.c)
 
 SameCall(a, b) == /\ a.c = b.c /\ a.cid = b.cid /\ (a.c \in {"dial", "open"} => ToSet(a.addrs) = ToSet(b.addrs))
                   /\ (a.c = "accept" => a.ok = b.ok)
+                  /\ (("tr" \in DOMAIN a /\ "tr" \in DOMAIN b) => a.tr = b.tr)
 SameEvent(a, b) == /\ a.k = b.k /\ a.cid = b.cid
                    /\ (a.k \in {"dial_failure", "open_failure"} => ToSet(a.addrs) = ToSet(b.addrs))
                    /\ (a.k \in {"est", "closed", "proto_dial_failure"} => a.peer = b.peer)
@@ -61,7 +62,10 @@ TStepImpl ==
   LET r == Rec[l] IN
   /\ ImplAct(r.s)
   /\ out'.ret = r.ret
-  /\ Len(out'.calls) = Len(r.calls) /\ \A i \in 1..Len(r.calls) : SameCall(out'.calls[i], r.calls[i])
+  \* calls are recorded per transport, so their order across transports is not observable
+  /\ Len(out'.calls) = Len(r.calls)
+  /\ \A i \in 1..Len(r.calls) : \E j \in 1..Len(r.calls) : SameCall(out'.calls[i], r.calls[j])
+  /\ \A j \in 1..Len(r.calls) : \E i \in 1..Len(r.calls) : SameCall(out'.calls[i], r.calls[j])
   /\ Len(out'.events) = Len(r.events) /\ \A i \in 1..Len(r.events) : SameEvent(out'.events[i], r.events[i])
   /\ \A p \in Peers : ps'[p] = r.view[p]
   /\ pend' = ToSet(r.pend)
@@ -74,7 +78,7 @@ TStepProp ==
   /\ LET m == MonEnd(FoldLeft(MonEvent, FoldLeft(MonCall, MonStim(mon, r.s), r.calls), r.events), r.ret, r.panic) IN
        /\ mon' = Forgive(m)
        /\ (m.bad # "" => PrintT(<<"BAD", l, m.bad>>))
-  /\ UNCHANGED <<ps, pend, tx, cpeer, cdir, caddrs, limIn, limOut, next, known, kf, hist, MaxIn, MaxOut, out>>
+  /\ UNCHANGED <<ps, pend, tx, cpeer, cdir, caddrs, otr, ctr, limIn, limOut, next, known, kf, hist, MaxIn, MaxOut, out>>
 
 TQuiesce ==
   /\ Rec[l].e = "quiesce"
@@ -82,7 +86,7 @@ TQuiesce ==
      ELSE /\ LET m == MonQuiesce(mon) IN
                /\ mon' = Forgive(m)
                /\ (m.bad # "" => PrintT(<<"BAD", l, m.bad>>))
-          /\ UNCHANGED <<ps, pend, tx, cpeer, cdir, caddrs, limIn, limOut, next, known, kf, hist, MaxIn, MaxOut, out>>
+          /\ UNCHANGED <<ps, pend, tx, cpeer, cdir, caddrs, otr, ctr, limIn, limOut, next, known, kf, hist, MaxIn, MaxOut, out>>
 
 TNext == /\ l <= Len(Rec)
          /\ l' = l + 1
